@@ -31,7 +31,9 @@
 //!            the destination (exact address, else wildcard, same family) on
 //!            the host owning the address (loopback: the own host);
 //!            `ConnectionRefused` otherwise; unknown address -> `TimedOut`;
-//!            ephemeral range exhausted -> `AddrInUse`.  The connection comes
+//!            ephemeral range exhausted -> `AddrInUse`.  The client's local
+//!            address is some address of its host in the family (loopback
+//!            towards loopback) with a free ephemeral port.  The connection comes
 //!            out of exactly that listener with mirrored addresses, exactly once (a second
 //!            poll of every listener finds nothing), and after the wire settled the H2 counts
 //!            equal the model: one server-side socket per established 4-tuple.
@@ -43,7 +45,18 @@
 //!            from exactly its peer address when that address can be bound.
 //!            Every datagram is received by exactly the socket the model
 //!            names (payload and source address intact) and by no other
-//!            socket on any host; every TCP probe has the modelled result and
+//!            socket on any host.  WHICH of its host's addresses a sender that
+//!            is not tied to one (wildcard-bound UDP socket, unbound socket of
+//!            an outgoing TCP connect) uses as source towards a non-loopback
+//!            destination is NOT part of the property: on a host with several
+//!            addresses of the family every one is a candidate, the model
+//!            computes the outcome (receiving socket or none -- the
+//!            connected-peer filter depends on the source) per candidate, and
+//!            the observation must equal the outcome of one candidate, the
+//!            `from` the receiver reports being exactly that candidate.  A
+//!            sender bound to a specific address, a loopback destination or a
+//!            single-address host leave one candidate.
+//!            Every TCP probe has the modelled result and
 //!            is accepted by exactly the modelled listener; a tag written on
 //!            each established connection is read by its peer stream only; after the probe
 //!            connections are closed the H2 counts equal the model again.
@@ -191,6 +204,19 @@ impl Entry {
     }
 }
 
+/// One tagged probe datagram, sent on `host` to `dst`.  `srcs` are the source addresses it may
+/// carry: one when the sending socket is bound to a specific address (or the destination is
+/// loopback), every address of the sender's host in the destination's family when the sender is
+/// bound to the wildcard -- the property leaves that choice to the stack.
+#[derive(Clone, Debug)]
+struct UdpProbe {
+    host: usize,
+    srcs: Vec<SocketAddr>,
+    dst: SocketAddr,
+    /// class label recorded when the datagram is delivered (to that socket entry, when given)
+    note: Option<(&'static str, Option<usize>)>,
+}
+
 enum Obj {
     Udp(Held<UdpSocket>),
     Lst(Held<TcpListener>),
@@ -319,14 +345,26 @@ impl Sim {
         Ok([port].into_iter().collect())
     }
 
-    /// Source address the stack uses when socket entry `e` sends to `dst`.
-    fn source_ip(&self, e: &Entry, dst: IpAddr) -> IpAddr {
-        if !e.addr.is_unspecified() {
-            e.addr
-        } else if dst.is_loopback() {
-            lo(dst.is_ipv6())
+    /// Source addresses a socket of host `h` that is not tied to one local address (bound to the
+    /// wildcard, or not bound at all like the socket of an outgoing TCP connect) may use towards
+    /// `dst`: loopback towards loopback, otherwise ANY configured address of the host in the
+    /// destination's family -- the property does not say which one the stack picks.
+    fn free_source_ips(&self, h: usize, dst: IpAddr) -> Vec<IpAddr> {
+        let v6 = dst.is_ipv6();
+        if dst.is_loopback() {
+            vec![lo(v6)]
         } else {
-            self.first_addr(e.host, dst.is_ipv6())
+            (0..self.naddrs(h, v6)).map(|i| host_addr(h, v6, i)).collect()
+        }
+    }
+
+    /// Candidate source addresses of a datagram that socket entry `e` sends to `dst`: the bound
+    /// address when there is one (then the source is determined), else `free_source_ips`.
+    fn source_ips(&self, e: &Entry, dst: IpAddr) -> Vec<IpAddr> {
+        if !e.addr.is_unspecified() {
+            vec![e.addr]
+        } else {
+            self.free_source_ips(e.host, dst)
         }
     }
 
@@ -649,11 +687,16 @@ impl Sim {
             (Ok(s), Ok(li)) => {
                 let (cl, cp) = (s.local_addr().ok(), s.peer_addr().ok());
                 let cs = self.world.hold(h, s);
-                let exp_ip = if dst.ip().is_loopback() { lo(v6) } else { self.first_addr(h, v6) };
-                let ok_local = cl.map(|l| l.ip() == exp_ip && free.contains(&l.port())).unwrap_or(false);
+                // the connecting socket is unbound: which of the host's addresses it takes as source
+                // is not fixed by the property (loopback towards loopback), only that it is local
+                let exp_ips = self.free_source_ips(h, dst.ip());
+                let ok_local = cl.map(|l| exp_ips.contains(&l.ip()) && free.contains(&l.port())).unwrap_or(false);
                 if !ok_local || cp != Some(dst) {
-                    self.fail("connect:client-addresses-wrong", format!("{ctx}: local_addr {cl:?} (expected {exp_ip} and a free ephemeral port), peer_addr {cp:?}"));
+                    self.fail("connect:client-addresses-wrong", format!("{ctx}: local_addr {cl:?} (expected one of {exp_ips:?} and a free ephemeral port), peer_addr {cp:?}"));
                     return;
+                }
+                if exp_ips.len() > 1 {
+                    self.out.label("connect:client-source-address-open");
                 }
                 let cl = cl.unwrap();
                 // the handshake ACK needs one more round
@@ -807,28 +850,25 @@ impl Sim {
                 psock.insert((h, v6), e);
             }
         }
-        // expected[entry] = list of (tag, from)
-        let mut expected: BTreeMap<usize, Vec<(u32, SocketAddr)>> = BTreeMap::new();
+        // every probe is judged on its own: sent[tag] = where it went and which sources it may carry
         let mut tag: u32 = 1;
-        let mut sent: BTreeMap<u32, (usize, SocketAddr, SocketAddr)> = BTreeMap::new();
+        let mut sent: BTreeMap<u32, UdpProbe> = BTreeMap::new();
+        let mut judged: u32 = 0;
         for h in 0..self.nh {
             for d in dsts.iter() {
                 for p in ports.iter() {
                     let dst = SocketAddr::new(*d, *p);
                     let pe = psock[&(h, d.is_ipv6())];
-                    let src = SocketAddr::new(self.source_ip(&self.entries[pe], *d), self.entries[pe].port);
+                    let srcs = self.probe_srcs(pe, *d);
                     if !self.udp_send(pe, dst, tag) {
                         return;
                     }
-                    if let Some(r) = self.route_udp(h, src, dst) {
-                        expected.entry(r).or_default().push((tag, src));
-                    }
-                    sent.insert(tag, (h, src, dst));
+                    sent.insert(tag, UdpProbe { host: h, srcs, dst, note: None });
                     tag += 1;
                 }
             }
         }
-        if !self.drain_udp(&mut expected, &sent) {
+        if !self.drain_udp(&sent, &mut judged) {
             return;
         }
         // datagrams from exactly the peer of every connected socket (own phase: the temporary
@@ -839,7 +879,7 @@ impl Sim {
             let ch = self.entries[ci].host;
             // the connected socket's own `send` goes to its peer
             {
-                let src = SocketAddr::new(self.source_ip(&self.entries[ci], peer.ip()), self.entries[ci].port);
+                let srcs = self.probe_srcs(ci, peer.ip());
                 let mut b = [0u8; 8];
                 b[0..4].copy_from_slice(&tag.to_le_bytes());
                 b[4..8].copy_from_slice(&[0xC1, 0x7C, 0x17, 0xAA]);
@@ -849,15 +889,11 @@ impl Sim {
                     self.fail("udp:connected-send-failed", d);
                     return;
                 }
-                if let Some(r) = self.route_udp(ch, src, peer) {
-                    expected.entry(r).or_default().push((tag, src));
-                    self.out.label("connected-send:reaches-a-socket");
-                }
-                sent.insert(tag, (ch, src, peer));
+                sent.insert(tag, UdpProbe { host: ch, srcs, dst: peer, note: Some(("connected-send:reaches-a-socket", None)) });
                 tag += 1;
             }
         }
-        if !self.drain_udp(&mut expected, &sent) {
+        if !self.drain_udp(&sent, &mut judged) {
             return;
         }
         let mut temp: Vec<usize> = Vec::new();
@@ -881,11 +917,15 @@ impl Sim {
                 continue;
             }
             let dst = SocketAddr::new(dip, self.entries[ci].port);
-            // a socket on ph whose datagrams to dst carry source == peer
-            let existing = (0..self.entries.len()).find(|i| {
-                let e = &self.entries[*i];
-                e.live && e.host == ph && !e.tcp && e.v6() == peer.is_ipv6() && e.port == peer.port() && self.source_ip(e, dip) == peer.ip()
-            });
+            // a socket on ph whose datagrams to dst can carry source == peer: preferably one bound
+            // to exactly the peer address (then the source is determined), else a wildcard-bound
+            // one (judged over every source it may pick)
+            let existing = (0..self.entries.len())
+                .filter(|i| {
+                    let e = &self.entries[*i];
+                    e.live && e.host == ph && !e.tcp && e.v6() == peer.is_ipv6() && e.port == peer.port() && self.source_ips(e, dip).contains(&peer.ip())
+                })
+                .min_by_key(|i| self.source_ips(&self.entries[*i], dip).len());
             let sender = match existing {
                 Some(s) => Some(s),
                 None => {
@@ -912,19 +952,14 @@ impl Sim {
                 self.out.label("peer-probe:destination-not-reachable-from-peer");
                 continue;
             }
+            let srcs = self.probe_srcs(sender, dip);
             if !self.udp_send(sender, dst, tag) {
                 return;
             }
-            if let Some(r) = self.route_udp(ph, peer, dst) {
-                expected.entry(r).or_default().push((tag, peer));
-                if r == ci {
-                    self.out.label("peer-probe:delivered-to-connected-socket");
-                }
-            }
-            sent.insert(tag, (ph, peer, dst));
+            sent.insert(tag, UdpProbe { host: ph, srcs, dst, note: Some(("peer-probe:delivered-to-connected-socket", Some(ci))) });
             tag += 1;
         }
-        if !self.drain_udp(&mut expected, &sent) {
+        if !self.drain_udp(&sent, &mut judged) {
             return;
         }
         self.out.count("udp_probes_sent", (tag - 1) as u64);
@@ -1063,21 +1098,36 @@ impl Sim {
         }
     }
 
-    /// deliver what is on the wire, then compare what every UDP socket received with `expected`
-    fn drain_udp(&mut self, expected: &mut BTreeMap<usize, Vec<(u32, SocketAddr)>>, sent: &BTreeMap<u32, (usize, SocketAddr, SocketAddr)>) -> bool {
+    /// (candidate source address, source port) of a datagram that UDP socket entry `e` sends to `dst`
+    fn probe_srcs(&self, e: usize, dst: IpAddr) -> Vec<SocketAddr> {
+        let en = &self.entries[e];
+        self.source_ips(en, dst).into_iter().map(|ip| SocketAddr::new(ip, en.port)).collect()
+    }
+
+    /// Deliver what is on the wire, read every live UDP socket empty, then judge every probe with
+    /// a tag above `*judged` on its own.  For each source address the probe may carry the model
+    /// names the receiving socket (or none); the observation -- which socket got the datagram, if
+    /// any, and the `from` it reports -- must equal the outcome of ONE of those sources: delivered
+    /// to the socket the model names for that source with exactly that source as `from`, or not
+    /// delivered where the model names none for some admissible source.  A datagram seen twice, one
+    /// that belongs to no probe of this phase, or one whose payload is not a probe is a violation.
+    fn drain_udp(&mut self, sent: &BTreeMap<u32, UdpProbe>, judged: &mut u32) -> bool {
         self.pump();
+        // tag -> [(receiving socket entry, from)]
+        let mut obs: BTreeMap<u32, Vec<(usize, SocketAddr)>> = BTreeMap::new();
+        let mut received: u64 = 0;
         for i in 0..self.entries.len() {
             if !self.entries[i].live || self.entries[i].tcp {
                 continue;
             }
-            let mut got: Vec<(u32, SocketAddr)> = Vec::new();
             if let Obj::Udp(u) = &self.objs[i] {
                 let mut buf = [0u8; 16];
                 loop {
                     match u.get().try_recv_from(&mut buf) {
                         Ok((n, from)) => {
                             let t = if n == 8 && buf[4..8] == [0xC1, 0x7C, 0x17, 0xAA] { u32::from_le_bytes(buf[0..4].try_into().unwrap()) } else { 0 };
-                            got.push((t, from));
+                            obs.entry(t).or_default().push((i, from));
+                            received += 1;
                         }
                         Err(e) if e.kind() == ErrorKind::WouldBlock => break,
                         Err(e) => {
@@ -1087,30 +1137,67 @@ impl Sim {
                     }
                 }
             }
-            let mut exp = expected.remove(&i).unwrap_or_default();
-            exp.sort();
-            let mut g = got.clone();
-            g.sort();
-            if g != exp {
-                let e = &self.entries[i];
-                let extra: Vec<String> = g.iter().filter(|x| !exp.contains(x)).map(|(t, f)| format!("tag {t} from {f} = probe {:?}", sent.get(t))).collect();
-                let missing: Vec<String> = exp.iter().filter(|x| !g.contains(x)).map(|(t, f)| format!("tag {t} from {f} = probe {:?}", sent.get(t))).collect();
-                let d = format!(
-                    "udp socket h{} {}:{} ({:?}) received {} datagrams, the model routes {} to it; unexpected: {extra:?}; missing: {missing:?}; udp sockets: {:?}",
-                    e.host,
-                    e.addr,
-                    e.port,
-                    e.role,
-                    g.len(),
-                    exp.len(),
-                    self.entries.iter().filter(|e| e.live && !e.tcp).map(|e| format!("h{} {}:{} {:?}", e.host, e.addr, e.port, e.role)).collect::<Vec<_>>()
-                );
-                let sig = if !extra.is_empty() { "route-udp:datagram-delivered-to-a-socket-the-model-does-not-name" } else { "route-udp:datagram-not-delivered-to-the-socket-the-model-names" };
+        }
+        const EXTRA: &str = "route-udp:datagram-delivered-to-a-socket-the-model-does-not-name";
+        const MISSING: &str = "route-udp:datagram-not-delivered-to-the-socket-the-model-names";
+        let sock = |s: &Sim, i: usize| {
+            let e = &s.entries[i];
+            format!("h{} {}:{} ({:?})", e.host, e.addr, e.port, e.role)
+        };
+        let socks = |s: &Sim| s.entries.iter().filter(|e| e.live && !e.tcp).map(|e| format!("h{} {}:{} {:?}", e.host, e.addr, e.port, e.role)).collect::<Vec<_>>();
+        // deliveries that belong to no probe of this phase
+        for (t, v) in obs.iter() {
+            if *t <= *judged || !sent.contains_key(t) {
+                let (i, from) = v[0];
+                let d = format!("udp socket {} received a datagram with tag {t} from {from} that is no probe of this phase (earlier probe: {:?}); udp sockets: {:?}", sock(self, i), sent.get(t), socks(self));
+                self.fail(EXTRA, d);
+                return false;
+            }
+        }
+        let first = *judged + 1;
+        for (t, p) in sent.range(first..) {
+            // admissible outcomes, one per candidate source: (receiving socket, from) or not delivered
+            let adm: Vec<Option<(usize, SocketAddr)>> = p.srcs.iter().map(|s| self.route_udp(p.host, *s, p.dst).map(|r| (r, *s))).collect();
+            let got: &[(usize, SocketAddr)] = obs.get(t).map(|v| v.as_slice()).unwrap_or(&[]);
+            let adm_txt = |s: &Sim| adm.iter().zip(p.srcs.iter()).map(|(a, src)| match a { Some((r, _)) => format!("source {src} -> socket {}", sock(s, *r)), None => format!("source {src} -> no socket") }).collect::<Vec<_>>();
+            let verdict: Option<(&str, String)> = match got {
+                [] => {
+                    if adm.contains(&None) {
+                        None
+                    } else {
+                        Some((MISSING, format!("probe tag {t} sent on host {} to {} was received by no socket; the model: {:?}", p.host, p.dst, adm_txt(self))))
+                    }
+                }
+                [one] => {
+                    if adm.contains(&Some(*one)) {
+                        None
+                    } else {
+                        Some((EXTRA, format!("probe tag {t} sent on host {} to {} was received by socket {} with from {}; the model: {:?}", p.host, p.dst, sock(self, one.0), one.1, adm_txt(self))))
+                    }
+                }
+                many => Some((EXTRA, format!("probe tag {t} sent on host {} to {} was received {} times: {:?}; the model: {:?}", p.host, p.dst, many.len(), many.iter().map(|(i, f)| format!("socket {} from {f}", sock(self, *i))).collect::<Vec<_>>(), adm_txt(self)))),
+            };
+            if let Some((sig, d)) = verdict {
+                let d = format!("{d}; udp sockets: {:?}", socks(self));
                 self.fail(sig, d);
                 return false;
             }
-            self.out.count("udp_probes_received", g.len() as u64);
+            if p.srcs.len() > 1 {
+                self.out.label("udp-probe:source-address-open");
+                if adm.iter().any(|a| a.map(|x| x.0) != adm[0].map(|x| x.0)) {
+                    self.out.label("udp-probe:outcome-depends-on-the-source-address");
+                }
+            }
+            if let (Some((r, _)), Some((label, to))) = (got.first(), p.note) {
+                if to.is_none() || to == Some(*r) {
+                    self.out.label(label);
+                }
+            }
         }
+        if let Some((t, _)) = sent.iter().next_back() {
+            *judged = *t;
+        }
+        self.out.count("udp_probes_received", received);
         true
     }
 
@@ -1331,14 +1418,14 @@ fn check(tier: Tier, seed: u64) -> i32 {
     ctx.replay_corpus(&replay);
     ctx.random("table", tier.pick(30_000, 400_000), &|| strategy(), &run);
     ctx.finish(
-        "random scenarios: 2-3 hosts with 1-2 IPv4 and 1-2 IPv6 addresses each, ephemeral range 5001..=5001+k-1 (k = 1..4, hook H3; overlaps the fixed ports 5001 and 5002) x wire class (immediate 50% / delayed 50%: TCP segments of connects held 0 or 2..4 rounds by a generated pattern, in 35% of those one SYN-ACK lost; retx_threshold 3, retx_max 1 resp. 4) x 3-25 operations (UDP bind / TCP listener bind to wildcard, loopback, a local address, an address of another host or an unknown address, port 0 or 5000/5001/5002; UDP connect to an address of some host, loopback or an unknown address; TCP connect + accept; close) x the full probe matrix (from every host a tagged UDP datagram and a TCP connect to every address of every host, loopback and an unknown address in both families, on the 3 fixed ports and every port in use; a datagram from the exact peer of every connected UDP socket; a tag each way on every established connection). Non-trivial = at some point >= 2 live UDP sockets / TCP listeners of one host share a port number across addresses, families or protocols; distinct by scenario hash.",
+        "random scenarios: 2-3 hosts with 1-2 IPv4 and 1-2 IPv6 addresses each, ephemeral range 5001..=5001+k-1 (k = 1..4, hook H3; overlaps the fixed ports 5001 and 5002) x wire class (immediate 50% / delayed 50%: TCP segments of connects held 0 or 2..4 rounds by a generated pattern, in 35% of those one SYN-ACK lost; retx_threshold 3, retx_max 1 resp. 4) x 3-25 operations (UDP bind / TCP listener bind to wildcard, loopback, a local address, an address of another host or an unknown address, port 0 or 5000/5001/5002; UDP connect to an address of some host, loopback or an unknown address; TCP connect + accept; close) x the full probe matrix (from every host a tagged UDP datagram and a TCP connect to every address of every host, loopback and an unknown address in both families, on the 3 fixed ports and every port in use; the own send of every connected UDP socket and a datagram from its exact peer (sent from a socket bound to the peer address when one can be bound, else from a wildcard-bound socket on the peer's port); a tag each way on every established connection). Non-trivial = at some point >= 2 live UDP sockets / TCP listeners of one host share a port number across addresses, families or protocols; distinct by scenario hash.",
         &[
             "no SO_REUSEADDR/SO_REUSEPORT: the shim does not expose them and Kernel::set_option panics (unimplemented) for them; without them an exact-address socket and a wildcard socket of the same (family, protocol, port) can never coexist, so the 'exact before wildcard' order and the 'connected exact socket vs. wildcard fallback' case are not reachable through the public API",
             "IPv4 and IPv6 are separate port spaces (no dual-stack wildcard)",
             "UDP datagrams and the segments of closing connections are always delivered in the round they are emitted; only TCP segments emitted while a connect is in progress are delayed / reordered (delayed class), holds <= 4 rounds and at most one lost SYN-ACK against a budget of retx_threshold 3 x retx_max 4, and the wire is left to settle before results, accept queues and table counts are judged",
             "TCP connections are closed on both ends and left to finish before the next step, so that 'live socket' is unambiguous",
             "which free port an ephemeral allocation returns is not predicted (any port of the range unused at every local address of that family+protocol is accepted); exhaustion must fail with AddrInUse",
-            "a wildcard-bound socket sends from the host's first address of the family (loopback towards loopback), as kernel/udp.rs and kernel/tcp.rs document",
+            "the source address chosen by a sender that is not tied to one local address is not asserted: a wildcard-bound UDP socket sending to a non-loopback destination, and the unbound socket of an outgoing TCP connect, may use any configured address of their host in the destination's family (loopback towards loopback). For such a datagram the model computes the receiving socket per candidate source (the connected-peer filter depends on it) and accepts the observation iff it equals the outcome of one candidate, with the receiver's `from` equal to exactly that candidate; a TCP client's local_addr must be one of the candidates with a free ephemeral port, and the accepting side must report exactly the address the client reports",
         ],
     )
 }
